@@ -1,7 +1,7 @@
 (* C16 -- digests, HMAC and CBC ciphers compute the standard functions for all inputs.
    Only property theorems here, each closed by `exact <lemma>`; proofs are in the other files of coq/C16.
    Bytes are N, byte strings list N, a message is fed as a list of chunks (one per append call). *)
-From CppcmsV Require Import Base.Tac C16.Defs C16.Blocks C16.ProofsMd5 C16.ProofsMd5Fin C16.ProofsSha1.
+From CppcmsV Require Import Base.Tac C16.Defs C16.Blocks C16.ProofsMd5 C16.ProofsMd5Fin C16.ProofsSha1 C16.ProofsSha1Fips C16.ProofsHmac C16.ProofsCbc.
 Local Open Scope N_scope.
 
 (* ---------------------------------------------------------------------------------------------
@@ -35,6 +35,22 @@ Theorem sha1_round_functions_are_fips : forall x y z, x < 4294967296 ->
   N.lor (N.lor (N.land x y) (N.land x z)) (N.land y z) = fips_Maj x y z.
 Proof. exact (fun x y z H => conj (ch_or_xor x y z H) (maj_or_xor x y z)). Qed.
 Print Assumptions sha1_round_functions_are_fips.
+
+(* sha1_spec (pad, then fold the 80-round function of the code model) is the function of FIPS 180-4 6.1.2 written from the
+   standard: ROTL with or, f_t = Ch/Parity/Maj selected by t/20, K_t table, W_t by its recurrence, big-endian words by arithmetic *)
+Theorem sha1_spec_is_fips180 : forall m, Forall (fun b => b < 256) m -> sha1_spec m = sha1_spec_fips m.
+Proof. exact sha1_spec_is_fips. Qed.
+Print Assumptions sha1_spec_is_fips180.
+Theorem sha1_block_function_is_fips180 : forall h block,
+  (let '(a, b, c, d, e) := h in a < 4294967296 /\ b < 4294967296 /\ c < 4294967296 /\ d < 4294967296 /\ e < 4294967296) ->
+  length block = 64%nat -> Forall (fun b => b < 256) block ->
+  sha1_process h block = sha1_compress_fips h block.
+Proof. exact (fun h block Hq Hl Hb => proj1 (sha1_process_fips h block Hq Hl Hb)). Qed.
+Print Assumptions sha1_block_function_is_fips180.
+Example sha1_fips_nonvacuous :
+  sha1_spec_fips [97;98;99] =
+    [0xa9;0x99;0x3e;0x36;0x47;0x06;0x81;0x6a;0xba;0x3e;0x25;0x71;0x78;0x50;0xc2;0x6c;0x9c;0xd0;0xd8;0x9d].
+Proof. rewrite <- sha1_spec_is_fips by (repeat constructor). vm_compute. reflexivity. Qed.
 
 (* a chunk of 2^31 .. 2^32-1 bytes is silently ignored by md5_digets::append (int conversion): outside the domain *)
 Theorem md5_chunk_outside_domain_dropped : forall st data,
@@ -100,4 +116,170 @@ Example sha1_spec_kat_fips180 :
   sha1_spec [97;98;99;100;98;99;100;101;99;100;101;102;100;101;102;103;101;102;103;104;102;103;104;105;103;104;105;106;
              104;105;106;107;105;106;107;108;106;107;108;109;107;108;109;110;108;109;110;111;109;110;111;112;110;111;112;113] =
     [0x84;0x98;0x3e;0x44;0x1c;0x3b;0xd2;0x6e;0xba;0xae;0x4a;0xa1;0xf9;0x51;0x29;0xe5;0xe5;0x46;0x70;0xf1].
+Proof. vm_compute. repeat split; reflexivity. Qed.
+
+(* ---------------------------------------------------------------------------------------------
+   3. HMAC (crypto.cpp hmac::init / append / readout) = RFC 2104, over ANY digest object of which only
+      streaming + reset-after-readout are known (premises rep_*: there is a relation "st has absorbed m" that
+      holds for a new object, is advanced by append on accepted chunks, and makes readout return Hf m and
+      leave an object that has absorbed nothing), digest no longer than the block, blocks accepted by append.
+      All key lengths: hmac_key0 hashes keys longer than the block, zero-pads the others (hmac_key_classes).
+      Every chunking; k messages through one hmac object (re-priming after readout).
+   --------------------------------------------------------------------------------------------- *)
+Theorem hmac_rfc2104 :
+  forall (D : Type) (d_new : D) (d_append : D -> list N -> D) (d_readout : D -> list N * D)
+         (B dsz : nat) (Hf : list N -> list N) (okc : list N -> Prop) (rep : D -> list N -> Prop),
+  rep d_new [] ->
+  (forall st m c, rep st m -> okc c -> rep (d_append st c) (m ++ c)) ->
+  (forall st m, rep st m -> fst (d_readout st) = Hf m /\ rep (snd (d_readout st)) []) ->
+  (forall m, length (Hf m) = dsz) -> (dsz <= B)%nat -> (forall c, (length c <= B)%nat -> okc c) ->
+  forall key msgs,
+  ((B < length key)%nat -> okc key) -> Forall (Forall okc) msgs ->
+  hmac_session D d_append d_readout B dsz (hmac_new D d_new d_append d_readout B dsz key) msgs =
+  map (fun chunks => hmac_spec B Hf key (concat chunks)) msgs.
+Proof. exact hmac_session_lemma. Qed.
+Print Assumptions hmac_rfc2104.
+
+Theorem hmac_key_classes : forall (B : nat) (Hf : list N -> list N) key,
+  ((length key < B)%nat -> hmac_key0 B Hf key = key ++ repeat 0 (B - length key)) /\
+  (length key = B -> hmac_key0 B Hf key = key) /\
+  ((B < length key)%nat -> hmac_key0 B Hf key = over_zeros B (Hf key)).
+Proof. exact (fun B Hf key => conj (key0_short B Hf key) (conj (key0_equal B Hf key) (key0_long B Hf key))). Qed.
+Print Assumptions hmac_key_classes.
+
+(* the two bundled digests satisfy the premises: closed statements for HMAC-MD5 and HMAC-SHA1 *)
+Theorem hmac_md5_rfc2104 : forall key msgs,
+  len key < 2147483648 -> Forall (Forall (fun c => len c < 2147483648)) msgs ->
+  hmac_md5_session key msgs = map (fun chunks => hmac_spec 64 md5_spec key (concat chunks)) msgs.
+Proof. exact hmac_md5_session_lemma. Qed.
+Print Assumptions hmac_md5_rfc2104.
+
+Theorem hmac_sha1_rfc2104 : forall key msgs,
+  hmac_sha1_session key msgs = map (fun chunks => hmac_spec 64 sha1_spec key (concat chunks)) msgs.
+Proof. exact hmac_sha1_session_lemma. Qed.
+Print Assumptions hmac_sha1_rfc2104.
+
+(* RFC 2202 test cases 1 and 6 (key shorter / longer than the block) + a key of exactly one block (value computed
+   with an independent implementation), run through the OBJECT model with a split message and a second message *)
+Example hmac_nonvacuous_rfc2202 :
+  hmac_md5_session (repeat 11 16) [[[72;105;32;84]; []; [104;101;114;101]]; [[72;105;32;84;104;101;114;101]]] =
+    [[146;148;114;122;54;56;187;28;19;244;142;248;21;139;252;157]; [146;148;114;122;54;56;187;28;19;244;142;248;21;139;252;157]] /\
+  hmac_sha1_session (repeat 11 20) [[[72;105;32;84]; []; [104;101;114;101]]; [[72;105;32;84;104;101;114;101]]] =
+    [[182;23;49;134;85;5;114;100;226;139;192;182;251;55;140;142;241;70;190;0]; [182;23;49;134;85;5;114;100;226;139;192;182;251;55;140;142;241;70;190;0]] /\
+  hmac_spec 64 md5_spec (repeat 170 80)
+    [84;101;115;116;32;85;115;105;110;103;32;76;97;114;103;101;114;32;84;104;97;110;32;66;108;111;99;107;45;83;105;122;101;32;75;101;121;32;45;32;72;97;115;104;32;75;101;121;32;70;105;114;115;116] =
+    [107;26;183;254;75;215;191;143;11;98;230;206;97;185;208;205] /\
+  hmac_sha1_session (repeat 170 80)
+    [[[84;101;115;116;32;85;115;105;110;103;32;76;97;114;103;101;114;32;84;104;97;110;32;66;108;111;99;107;45;83;105;122;101;32;75;101;121;32;45;32;72;97;115;104;32;75;101;121;32;70;105;114;115;116]]] =
+    [[170;74;229;225;82;114;208;14;149;112;86;55;206;138;59;85;237;64;33;18]] /\
+  hmac_spec 64 md5_spec (map N.of_nat (seq 0 64)) [97;98;99] = [160;215;43;223;166;233;205;58;86;230;96;236;168;146;191;176] /\
+  hmac_spec 64 sha1_spec (map N.of_nat (seq 0 64)) [97;98;99] = [137;227;146;133;45;166;182;71;73;13;63;40;114;24;130;74;46;33;1;176].
+Proof. vm_compute. repeat split; reflexivity. Qed.
+
+(* ---------------------------------------------------------------------------------------------
+   4. CBC over any block cipher with D(E b) = b on 16-byte blocks (AES itself is library code).
+      whole p: |p| is a multiple of 16.  The object keeps a running IV per direction across calls.
+   --------------------------------------------------------------------------------------------- *)
+Theorem cbc_inverse : forall (E Dc : list N -> list N),
+  (forall b, length b = 16%nat -> length (E b) = 16%nat) ->
+  (forall b, length b = 16%nat -> Dc (E b) = b) ->
+  forall iv p, length iv = 16%nat -> (length p mod 16 = 0)%nat ->
+  cbc_dec Dc iv (fst (cbc_enc E iv p)) = (p, snd (cbc_enc E iv p)).
+Proof. exact cbc_inverse_lemma. Qed.
+Print Assumptions cbc_inverse.
+
+(* encrypt in any number of calls, decrypt with any other split into whole-block calls: plaintext back,
+   and both objects end with the same running IV *)
+Theorem cbc_inverse_any_call_split : forall (E Dc : list N -> list N),
+  (forall b, length b = 16%nat -> length (E b) = 16%nat) ->
+  (forall b, length b = 16%nat -> Dc (E b) = b) ->
+  forall iv pcalls ccalls,
+  length iv = 16%nat ->
+  Forall (fun p => (length p mod 16 = 0)%nat) pcalls -> Forall (fun c => (length c mod 16 = 0)%nat) ccalls ->
+  concat ccalls = fst (cbc_encrypt_calls E (cbc_set_iv iv) pcalls) ->
+  fst (cbc_decrypt_calls Dc (cbc_set_iv iv) ccalls) = concat pcalls /\
+  c_iv_dec (snd (cbc_decrypt_calls Dc (cbc_set_iv iv) ccalls)) = c_iv_enc (snd (cbc_encrypt_calls E (cbc_set_iv iv) pcalls)).
+Proof. exact cbc_calls_inverse. Qed.
+Print Assumptions cbc_inverse_any_call_split.
+
+(* what the session code relies on (aes_encryptor.cpp decrypts with a zero IV and throws the first block away):
+   the IV enters the first plaintext block only *)
+Theorem cbc_dec_iv_only_in_first_block : forall (Dc : list N -> list N) iv c, (16 <= length c)%nat ->
+  cbc_dec Dc iv c = (xor_bytes (Dc (firstn 16 c)) iv ++ fst (cbc_dec Dc (firstn 16 c) (skipn 16 c)),
+                     snd (cbc_dec Dc (firstn 16 c) (skipn 16 c))).
+Proof. exact cbc_dec_first_block. Qed.
+Print Assumptions cbc_dec_iv_only_in_first_block.
+
+Theorem cbc_dec_blocks_2_to_n_iv_independent : forall (Dc : list N -> list N),
+  (forall b, length b = 16%nat -> length (Dc b) = 16%nat) ->
+  forall iv1 iv2 c, length iv1 = 16%nat -> length iv2 = 16%nat -> (16 <= length c)%nat ->
+  skipn 16 (fst (cbc_dec Dc iv1 c)) = skipn 16 (fst (cbc_dec Dc iv2 c)) /\
+  snd (cbc_dec Dc iv1 c) = snd (cbc_dec Dc iv2 c).
+Proof. exact cbc_dec_iv_independent. Qed.
+Print Assumptions cbc_dec_blocks_2_to_n_iv_independent.
+
+(* non-vacuity: a toy invertible block cipher (add 1 / subtract 1 mod 256 on every byte), two blocks, calls 1+1 vs 2 *)
+Example cbc_nonvacuous :
+  let E := map (fun b => (b + 1) mod 256) in
+  let Dc := map (fun b => (b + 255) mod 256) in
+  let iv := map N.of_nat (seq 100 16) in
+  let p1 := map N.of_nat (seq 0 16) in
+  let p2 := repeat 255 16 in
+  fst (cbc_encrypt_calls E (cbc_set_iv iv) [p1; p2]) <> p1 ++ p2 /\
+  fst (cbc_decrypt_calls Dc (cbc_set_iv iv) [fst (cbc_encrypt_calls E (cbc_set_iv iv) [p1; p2])]) = p1 ++ p2 /\
+  skipn 16 (fst (cbc_dec Dc (repeat 0 16) (fst (cbc_enc E iv (p1 ++ p2))))) = p2.
+Proof. vm_compute. repeat split; try reflexivity. discriminate. Qed.
+
+(* ---------------------------------------------------------------------------------------------
+   5. key::set_hex accepts exactly the even-length hexadecimal strings (both directions, both error
+      classes) and inverts the lower-case hex writer used by cppcms_make_key
+   --------------------------------------------------------------------------------------------- *)
+Theorem key_hex_accepts_exactly : forall s,
+  (exists k, set_hex s = KeyOk k) <-> (N.even (len s) = true /\ forallb is_hex s = true).
+Proof. exact set_hex_accepts. Qed.
+Print Assumptions key_hex_accepts_exactly.
+Theorem key_hex_rejections : forall s,
+  (set_hex s = KeyOddLength <-> N.odd (len s) = true) /\
+  (set_hex s = KeyBadChar <-> (N.odd (len s) = false /\ forallb is_hex s = false)).
+Proof. exact set_hex_rejects. Qed.
+Print Assumptions key_hex_rejections.
+Theorem key_hex_roundtrip : forall k, Forall (fun b => b < 256) k -> set_hex (to_hex k) = KeyOk k.
+Proof. exact set_hex_to_hex. Qed.
+Print Assumptions key_hex_roundtrip.
+(* read_from_file: blanks (space, LF, CR, TAB) at the end of the file are ignored and nothing else is; a file of blanks only
+   gives the empty key (an empty file is refused) *)
+Theorem key_file_trailing_blanks_ignored : forall s c ws,
+  is_ws c = false -> forallb is_ws ws = true -> key_from_file ((s ++ [c]) ++ ws) = set_hex (s ++ [c]).
+Proof. exact key_from_file_strips. Qed.
+Print Assumptions key_file_trailing_blanks_ignored.
+Theorem key_file_of_blanks_is_empty_key : forall ws, ws <> [] -> forallb is_ws ws = true -> key_from_file ws = KeyOk [].
+Proof. exact key_from_file_all_blank. Qed.
+Print Assumptions key_file_of_blanks_is_empty_key.
+Example key_hex_nonvacuous :
+  set_hex [48;49;65;102] = KeyOk [1; 175] /\ set_hex [48;49;65] = KeyOddLength /\ set_hex [48;103] = KeyBadChar /\
+  to_hex [1; 175] = [48;49;97;102] /\\
+  key_from_file [48;49;65;102;10;32] = KeyOk [1; 175] /\\ key_from_file [32;48;49] = KeyBadChar /\\ key_from_file [] = KeyEmptyFile.
+Proof. vm_compute. repeat split; reflexivity. Qed.
+
+(* ---------------------------------------------------------------------------------------------
+   6. the wrappers around the primitives: which calls a cbc object serves, name dispatch
+   --------------------------------------------------------------------------------------------- *)
+(* encrypt/decrypt after any sequence of calls is served iff a key of exactly key_size() bytes and an IV
+   (16 bytes, or a nonce IV) were given at some point before; otherwise it is refused (no output is produced) *)
+Theorem cbc_served_iff_key_and_iv : forall ks before,
+  fst (cbc_ctl_step ks (cbc_ctl_state ks (false, false) before) OpEnc) = StOk <-> (keyed ks before = true /\ ived before = true).
+Proof. exact cbc_ctl_served. Qed.
+Print Assumptions cbc_served_iff_key_and_iv.
+(* create_by_name is case-insensitive, answers with the canonical name, and every digest it can return has
+   digest_size <= block_size in {64,128} - the premise dsz <= B of hmac_rfc2104 *)
+Theorem digest_by_name_case_insensitive : forall n, digest_by_name (map lower n) = digest_by_name n.
+Proof. exact digest_by_name_fold. Qed.
+Print Assumptions digest_by_name_case_insensitive.
+Theorem digest_by_name_sizes : forall n nm d b, digest_by_name n = Some (nm, d, b) ->
+  d <= b /\ (b = 64 \/ b = 128) /\ digest_by_name nm = Some (nm, d, b).
+Proof. exact digest_by_name_table. Qed.
+Print Assumptions digest_by_name_sizes.
+Example wrappers_nonvacuous :
+  digest_by_name [83;72;65;51;56;52] = Some ([115;104;97;51;56;52], 48, 128) /\ digest_by_name [109;100;52] = None /\
+  cbc_ctl_run 16 (false, false) [OpEnc; OpKey 15; OpKey 16; OpDec; OpIv 16; OpEnc] = [StNoKey; StBadKeySize; StOk; StNoIv; StOk; StOk].
 Proof. vm_compute. repeat split; reflexivity. Qed.
